@@ -265,8 +265,10 @@ theorem C04_review_integer_lex (d : Dialect) (n : Nat) :
 
 /-! ## pins: what the hand models assume about the source -/
 /-- (SLY's `@_` decorator stores each pattern wrapped in one group) -/
-example : Lex_mindsdb.QUOTE_STRING = "('(?:\\\\.|[^'])*(?:''(?:\\\\.|[^'])*)*')" := by decide
-example : Lex_mindsdb.DQUOTE_STRING = "(\"(?:\\\\.|[^\"])*\")" := by decide
+-- repo commit 73323f7: same matches as `'(?:\\\\.|[^'])*(?:''(?:\\\\.|[^'])*)*'` / `"(?:\\\\.|[^"])*"` (what `Lex.mQuote` / `mDQuote`
+-- transcribe), written with look-aheads so that the match is not exponential on unterminated literals
+example : Lex_mindsdb.QUOTE_STRING = "('(?:\\\\.(?=[^']*')|[^'])*(?:''(?=[^']*')(?:\\\\.(?=[^']*')|[^'])*)*')" := by decide
+example : Lex_mindsdb.DQUOTE_STRING = "(\"(?:\\\\.(?=[^\"]*\")|[^\"])*\")" := by decide
 /-- which models are tied to the live code: the one-scan string codec (`Model/Codec.lean`) and the identifier codec with
 doubled back-quotes (`Model/LexBq.lean`).  A tree that falls back to an old variant breaks this obligation (the
 `C04_old_*` theorems would then be the applicable ones, and the check ties `Model/Lex.lean` again). -/
